@@ -22,7 +22,7 @@ func init() { commands["C01"] = runC01 }
 
 func runC01(r *Run) {
 	r.Result.Rule = "scenario = one server configuration (peer store, security extension, passive, query hook crossed) receiving (i) structured KRPC with fields missing / extra / oversized / wrongly typed / deeply nested, (ii) byte mutations of valid encodings (truncate, flip, splice, length-prefix lies, trailing bytes), (iii) raw bytes, (iv) hostile replies (every subset of response fields present, absent or malformed) to its own in-flight ping, bootstrap, announce, BEP 44 get and put traversals; afterwards a probe ping from a fresh address must be answered and Stats/NumNodes/Nodes must return; non-trivial = distinct datagram that is not plain random bytes"
-	n := r.n(60, 1500)
+	n := r.n(60, 600)
 	for i := 0; i < n; i++ {
 		o := srvOpts{noSecurity: i%3 != 0, passive: i%7 == 6, hook: i%5 == 4, peerStore: i%2 == 0, callback: i%4 == 0}
 		if !o.noSecurity {
